@@ -95,12 +95,16 @@ def valid_identity(h):
     return s.check() == z3.unsat
 
 
+INPUTS = {}  # name -> term: what a counter-model is asked for (set by the *_setup functions and query())
+
+
 def prove(out, prop, fn, clause, path, variant, st, goal, tier, extra_index=(), hints=()):
     s = st.fork()
     if callable(goal):
         goal = goal(s)
     hs = [h for h in hints if valid_identity(h)]
     vc = smt.build_vc(f"{fn}/{clause}#{path}", s, goal, extra_index=extra_index, extra_hyps=hs)
+    vc.inputs = dict(INPUTS)
     return record(out, prop, fn, clause, path, variant, vc, tier)
 
 
@@ -154,6 +158,8 @@ def bin_setup(st):
     n = st.obj(o.fields["values"]).length()
     T = accspec.BinTerms("Bin1", L, H, n)
     st.add(*T.facts())
+    INPUTS.clear()
+    INPUTS.update({"class": z3.StringVal("Bin"), "low": L, "high": H, "num": n})
     return selfv, T
 
 
@@ -183,6 +189,10 @@ def query(st, variant, dom_lo=None, dom_hi=None):
         st.add(wf, hi.isfin())
     if variant == "sub":
         st.add(lo.r < hi.r)
+    for nm, q in (("q.low", lo), ("q.high", hi)):
+        INPUTS.pop(nm, None)
+        if q is not None:
+            INPUTS[nm] = q.r
     if variant == "low" and dom_hi is not None:
         st.add(lo.r < dom_hi)
     if variant == "high" and dom_lo is not None:
@@ -202,6 +212,7 @@ def index_bin(P, prop, tier, out):
     selfv, T = bin_setup(st)
     x, wf = Fl.sym("x")
     st.add(wf, *T.pos_facts(x.r))
+    INPUTS["q.x"] = x.r
     pre = st.fork()
     try:
         res = X.run(st, fi, [selfv, VFl(x)])
@@ -264,6 +275,7 @@ def acc_bin(P, meth, variant, prop, tier, out):
     if variant == "xvalues":
         x, wf = Fl.sym("q.x")
         st.add(wf)
+        INPUTS["q.x"] = x.r
         xs = st.alloc(CList([VFl(x)]), new=False)
         args = [selfv, NONE, NONE, xs]
         lo = hi = None
@@ -391,6 +403,8 @@ def sparse_setup(st):
     st.add_index(core.KInt(C.mx))
     k = z3.Const("Sparse1.k", core.Key)
     st.forall(k, C.present(k), z3.And(C.mn <= core.Key.ki(k), core.Key.ki(k) <= C.mx), name="minmax-canonical")
+    INPUTS.clear()
+    INPUTS.update({"class": z3.StringVal("SparselyBin"), "origin": C.T.O, "binWidth": C.T.W, "filled": C.n, "minBin": C.mn, "maxBin": C.mx})
     return C
 
 
@@ -487,6 +501,7 @@ def index_sparse(P, prop, tier, out):
     C = sparse_setup(st)
     x, wf = Fl.sym("x")
     st.add(wf, *C.T.pos_facts(x.r))
+    INPUTS["q.x"] = x.r
     pre = st.fork()
     try:
         res = X.run(st, fi, [C.selfv, VFl(x)])
@@ -659,6 +674,8 @@ class CentralCtx:
         self.bins = o.fields["bins"]
         self.n = st.obj(self.bins).length()
         self.IDX = z3.Function("Central1.idx", z3.RealSort(), z3.IntSort(), z3.BoolSort(), z3.IntSort())
+        INPUTS.clear()
+        INPUTS.update({"class": z3.StringVal("CentrallyBin"), "n": self.n, **{f"c{i}": self.c(st, z3.IntVal(i)).r for i in range(6)}})
 
     def c(self, st, i):
         return st.obj(self.bins).get(i).items[0].fl
@@ -747,6 +764,12 @@ def index_central(P, prop, tier, out):
         C = CentralCtx(st)
         x, wf = Fl.sym("x")
         st.add(wf)
+        INPUTS["q.low" if greater else "q.high"] = x.r
+        kr, kk = C.key(x)
+        k = C.IDX(kr, kk, z3.BoolVal(greater))
+        INPUTS["w.k"] = k
+        for d in (-1, 0, 1, 2):
+            INPUTS[f"w.c{d:+d}"] = C.c(st, k + d).r
         pre = st.fork()
         try:
             res = X.run(st, fi, [C.selfv, VFl(x), VBool(greater)])
@@ -909,6 +932,8 @@ class IrrCtx:
         self.bins = o.fields["bins"]
         self.n = st.obj(self.bins).length()
         self.LOW = z3.Function("Irr1.lower", z3.RealSort(), z3.IntSort(), z3.IntSort())
+        INPUTS.clear()
+        INPUTS.update({"class": z3.StringVal("IrregularlyBin"), "n": self.n, **{f"e{i}": self.e(st, z3.IntVal(i)).r for i in range(1, 6)}})
 
     def e(self, st, i):
         return st.obj(self.bins).get(i).items[0].fl
@@ -929,6 +954,15 @@ class IrrCtx:
         i = z3.Int(f"irr!{core.uid()}")
         st.forall(i, z3.And(i > r, i < self.n), x.lt(self.e(st, i)), name="lower-index-largest")
         return r
+
+    def window(self, st, x):
+        """ask a counter-model for the thresholds around the bin holding x (its far-away elements are junk)"""
+        kr = z3.If(x.isfin(), x.r, z3.RealVal(0))
+        kk = z3.If(x.pinf, z3.IntVal(1), z3.If(x.ninf, z3.IntVal(-1), z3.IntVal(0)))
+        k = self.LOW(kr, kk)
+        INPUTS["w.k"] = k
+        for d in (-1, 0, 1, 2):
+            INPUTS[f"w.e{d:+d}"] = self.e(st, k + d).r
 
     def upper(self, st, x):
         r = self.lower(st, x)
@@ -968,6 +1002,8 @@ def index_irr(P, prop, tier, out):
         C = IrrCtx(st)
         x, wf = Fl.sym("x")
         st.add(wf)
+        INPUTS["q.low" if name == "_lower_index" else "q.high"] = x.r
+        C.window(st, x)
         pre = st.fork()
         try:
             res = X.run(st, fi, [C.selfv, VFl(x)])
